@@ -139,6 +139,13 @@ def uplete (a : Arr) (index count : Nat) : Arr × Nat × List Ev :=
     ({ a with slots := a.slots.take index ++ List.replicate count none ++ a.slots.drop (index + count),
               tally := a.tally - occupied gone }, count, freedOf gone)
 
+/-- hawk_arr_pushstack: insert at `size` -/
+def pushstack (a : Arr) (v : Nat) (o : Oracle) : Res := insert a a.size v o
+
+/-- hawk_arr_popstack (asserts size > 0; the harness only calls it then): delete the last slot -/
+def popstack (a : Arr) : Arr × Nat × List Ev :=
+  if a.size > 0 then delete a (a.size - 1) 1 else (a, 0, [])
+
 def clear (a : Arr) : Arr × List Ev :=
   ({ a with slots := [], size := 0, tally := 0 }, freedOf a.slots)
 
@@ -254,6 +261,101 @@ instance (l : List Nat) : Decidable (HeapOrd l) := by
     constructor
     · intro h i hi hp; exact h i hp (List.mem_range.mp hi)
     · intro h i hp hl; exact h i (List.mem_range.mpr hl) hp
+  rw [this]; infer_instance
+
+/-! ### the same heap with position back-pointers (`heap_pos_offset != HAWK_ARR_NIL`)
+
+An item is `(key, pos)`: `pos` is the field inside the caller's datum that `HEAP_UPDATE_POS(arr, index)` overwrites
+with `index` after every slot store.  `stamp l i x` is exactly `arr->slot[i] = x; HEAP_UPDATE_POS (arr, i);`.
+The functions below are arr.c's again with that macro at each of its seven sites; `HeapPosLemmas` proves that their
+keys evolve exactly like the key-only model above and that every item's `pos` equals the slot it sits in. -/
+
+abbrev Item := Nat × Nat
+
+def stamp (l : List Item) (i : Nat) (x : Item) : List Item := l.set i (x.1, i)
+
+def keys (l : List Item) : List Nat := l.map (·.1)
+
+def siftUpLoopP (tmp : Item) (l : List Item) (index : Nat) : List Item × Nat :=
+  if h : index = 0 then (stamp l index tmp, index) else
+  let parent := hparent index
+  let l1 := stamp l index (l.getD parent (0, 0))
+  if parent = 0 then (stamp l1 parent tmp, parent)
+  else if cmp tmp.1 (l1.getD (hparent parent) (0, 0)).1 ≤ 0 then (stamp l1 parent tmp, parent)
+  else siftUpLoopP tmp l1 parent
+termination_by index
+decreasing_by unfold hparent; omega
+
+def siftUpP (l : List Item) (index : Nat) : List Item × Nat :=
+  if index > 0 then
+    if cmp (l.getD index (0, 0)).1 (l.getD (hparent index) (0, 0)).1 > 0 then siftUpLoopP (l.getD index (0, 0)) l index
+    else (l, index)
+  else (l, index)
+
+def pickChildP (l : List Item) (index : Nat) : Nat :=
+  if 2 * index + 2 < l.length then
+    (if cmp (l.getD (2 * index + 2) (0, 0)).1 (l.getD (2 * index + 1) (0, 0)).1 > 0 then 2 * index + 2 else 2 * index + 1)
+  else 2 * index + 1
+
+theorem lt_pickChildP (l : List Item) (index : Nat) : index < pickChildP l index := by
+  unfold pickChildP; split <;> (try split) <;> omega
+
+def siftDownLoopP (tmp : Item) (l : List Item) (index : Nat) : List Item × Nat :=
+  let child := pickChildP l index
+  if cmp tmp.1 (l.getD child (0, 0)).1 > 0 then (stamp l index tmp, index)
+  else
+    let l1 := stamp l index (l.getD child (0, 0))
+    if child < l.length / 2 then siftDownLoopP tmp l1 child
+    else (stamp l1 child tmp, child)
+termination_by l.length - index
+decreasing_by
+  simp only [stamp, List.length_set]
+  have := lt_pickChildP l index
+  omega
+
+def siftDownP (l : List Item) (index : Nat) : List Item × Nat :=
+  if index < l.length / 2 then siftDownLoopP (l.getD index (0, 0)) l index else (l, index)
+
+/-- hawk_arr_pushheap: insert at the back, HEAP_UPDATE_POS there, sift up (the caller's `pos` field is overwritten) -/
+def pushheapP (l : List Item) (k : Nat) : List Item :=
+  (siftUpP (l ++ [(k, l.length)]) l.length).1
+
+def deleteheapP (l : List Item) (index : Nat) : List Item × Option Nat :=
+  if h : index < l.length then
+    let tmp := l[index]
+    let n := l.length - 1
+    if n > 0 ∧ index ≠ n then
+      let l1 := (stamp l index (l.getD n (0, 0))).take n
+      let c := cmp (l1.getD index (0, 0)).1 tmp.1
+      if c > 0 then ((siftUpP l1 index).1, some tmp.1)
+      else if c < 0 then ((siftDownP l1 index).1, some tmp.1)
+      else (l1, some tmp.1)
+    else (l.take n, some tmp.1)
+  else (l, none)
+
+def updateheapP (l : List Item) (index k : Nat) : List Item × Option Nat :=
+  if h : index < l.length then
+    let tmp := l[index]
+    let c := cmp k tmp.1
+    if c ≠ 0 then
+      let l1 := stamp l index (k, 0)
+      if c > 0 then ((siftUpP l1 index).1, some tmp.1) else ((siftDownP l1 index).1, some tmp.1)
+    else (l, none)
+  else (l, none)
+
+/-- every item knows the slot it is in -/
+def PosOk (l : List Item) : Prop := ∀ i (h : i < l.length), (l[i]).2 = i
+
+instance (l : List Item) : Decidable (PosOk l) := by
+  unfold PosOk
+  have : (∀ i (h : i < l.length), (l[i]).2 = i) ↔ (∀ i ∈ List.range l.length, (l.getD i (0, 0)).2 = i) := by
+    constructor
+    · intro h i hi
+      have hl := List.mem_range.mp hi
+      simp [List.getD_eq_getElem?_getD, hl, h i hl]
+    · intro h i hl
+      have := h i (List.mem_range.mpr hl)
+      simpa [List.getD_eq_getElem?_getD, hl] using this
   rw [this]; infer_instance
 
 end Hawk.Arr
